@@ -22,5 +22,6 @@ func init() {
 		rules.IntervalCanonicity(p, r, "C14-d-ports")
 		rules.QueryPathWrites(p, r, "C14-pure")
 		rules.SeenSetKeyCompleteness(p, r, "C14-e")
+		rules.UnconditionalIPBlockContribution(p, r, "C14-f")
 	})
 }
